@@ -288,7 +288,10 @@ def oracle(case):
         # part headers other than Content-Disposition/Content-Type: a Content-Length of the part, a transfer encoding
         pool = ["Content-Length: %LEN%", "Content-Transfer-Encoding: binary", "X-Part-Id: 7", "content-length: %LEN%"]
         extra = [rng.sample(pool, rng.randrange(0, 3)) for _ in parts]
-    body = encode(parts, boundary, final, extra=extra)
+    # a preamble before the first delimiter (RFC 2046 5.1.1: to be ignored), blank lines in it included
+    preamble = rng.choice([b"", b"", b"", b"\r\n", b"This is a multi-part message in MIME format.\r\n\r\n", b"preamble\r\n",
+                           b"one\r\n \r\ntwo\r\n", b"\n"])
+    body = encode(parts, boundary, final, preamble=preamble, extra=extra)
     want = expect(parts)
     factory = Factory() if rng.random() < 0.3 else None
     cl = len(body) if rng.random() < 0.8 else None
